@@ -28,13 +28,35 @@ type provState struct {
 // loader); only its functions are expanded as accessors.
 var ModulePrefix = "github.com/high-moctane/mocrelay"
 
+// InModuleFn: fn (or, for an instantiation / anonymous function, its origin /
+// enclosing function) is declared in the analysed module and has a body.
+func InModuleFn(fn *ssa.Function) bool {
+	if fn == nil || len(fn.Blocks) == 0 {
+		return false
+	}
+	f := fn
+	for f.Parent() != nil {
+		f = f.Parent()
+	}
+	if o := f.Origin(); o != nil {
+		f = o
+	}
+	if f.Pkg != nil {
+		return strings.HasPrefix(f.Pkg.Pkg.Path(), ModulePrefix)
+	}
+	if obj := f.Object(); obj != nil && obj.Pkg() != nil {
+		return strings.HasPrefix(obj.Pkg().Path(), ModulePrefix)
+	}
+	return false
+}
+
 // accessorResult: fn is a straight-line, effect-free function of its
 // parameters with one result (`func (c *T) len() int { return len(c.evs) }`):
 // calling it is the same as writing its body, so its call sites get the
 // body's access path. Anything with a branch, a store, a non-builtin call or
 // an allocation is not an accessor.
 func accessorResult(fn *ssa.Function) ssa.Value {
-	if fn == nil || len(fn.Blocks) != 1 || fn.Pkg == nil || !strings.HasPrefix(fn.Pkg.Pkg.Path(), ModulePrefix) {
+	if !InModuleFn(fn) || len(fn.Blocks) != 1 {
 		return nil
 	}
 	if fn.Signature.Results().Len() != 1 || len(fn.Blocks[0].Instrs) > 32 {
@@ -42,7 +64,11 @@ func accessorResult(fn *ssa.Function) ssa.Value {
 	}
 	// exported functions are API: their names are stable anchors, only private helpers
 	// come and go with refactorings
-	if o := fn.Object(); o == nil || o.Exported() {
+	of := fn
+	if o := fn.Origin(); o != nil {
+		of = o
+	}
+	if o := of.Object(); o == nil || o.Exported() {
 		return nil
 	}
 	var res ssa.Value
@@ -82,6 +108,99 @@ func accessorResult(fn *ssa.Function) ssa.Value {
 func PathOf(v ssa.Value) string {
 	st := &provState{memo: map[ssa.Value]string{}, busy: map[ssa.Value]bool{}}
 	return st.path(v)
+}
+
+// helperResult: for a private helper with several blocks (error checks, early
+// returns), result #idx read in the caller's terms — if every return that
+// yields a non-zero value yields the same expression, and that expression
+// does not hang on an object the helper mutates through other calls (a
+// hasher, a builder). "" = no such reading.
+func (st *provState) helperResult(c *ssa.CallCommon, idx int) string {
+	fn := StaticCallee(c)
+	if !PrivateHelper(fn) || st.depth >= 3 || len(fn.Params) != len(c.Args) || len(fn.Blocks) > 12 {
+		return ""
+	}
+	sub := &provState{memo: map[ssa.Value]string{}, busy: map[ssa.Value]bool{}, bind: map[*ssa.Parameter]string{}, depth: st.depth + 1}
+	for i, p := range fn.Params {
+		sub.bind[p] = st.path(c.Args[i])
+	}
+	// objects handed to two or more calls: their later products depend on earlier calls
+	uses := map[ssa.Value]int{}
+	Instrs(fn, func(in ssa.Instruction) {
+		if ci, ok := in.(ssa.CallInstruction); ok {
+			seen := map[ssa.Value]bool{}
+			for _, a := range ci.Common().Args {
+				a = Unwrap(a)
+				switch a.(type) {
+				case *ssa.Call, *ssa.Alloc, *ssa.Extract, *ssa.MakeMap, *ssa.MakeSlice:
+					if !seen[a] {
+						seen[a] = true
+						uses[a]++
+					}
+				}
+			}
+			if ci.Common().IsInvoke() {
+				uses[Unwrap(ci.Common().Value)]++
+			}
+		}
+	})
+	var dependsOnStateful func(v ssa.Value, depth int) bool
+	dependsOnStateful = func(v ssa.Value, depth int) bool {
+		if v == nil || depth > 12 {
+			return false
+		}
+		if uses[Unwrap(v)] >= 2 {
+			return true
+		}
+		// a local whose address was handed to a call is written behind our back
+		if a, isAlloc := v.(*ssa.Alloc); isAlloc {
+			if uses[a] >= 1 {
+				return true
+			}
+			if refs := a.Referrers(); refs != nil {
+				for _, r := range *refs {
+					switch x := r.(type) {
+					case *ssa.MakeInterface:
+						return true
+					case *ssa.Store:
+						if x.Val == ssa.Value(a) {
+							return true
+						}
+					}
+				}
+			}
+		}
+		in, ok := v.(ssa.Instruction)
+		if !ok {
+			return false
+		}
+		for _, op := range in.Operands(nil) {
+			if op != nil && *op != nil && dependsOnStateful(*op, depth+1) {
+				return true
+			}
+		}
+		return false
+	}
+	out := ""
+	for _, rb := range ReturnBlocks(fn) {
+		rv := ReturnValues(LastInstr(rb).(*ssa.Return))
+		if idx >= len(rv) {
+			return ""
+		}
+		v := rv[idx]
+		if k, isK := v.(*ssa.Const); isK && (k.Value == nil || k.Value.ExactString() == "0" || k.Value.ExactString() == `""` || k.Value.ExactString() == "false") {
+			continue
+		}
+		if _, isK := v.(*ssa.Const); isK || dependsOnStateful(v, 0) {
+			return "" // a verdict / code chosen per path is not an expression of the arguments
+		}
+		p := sub.path(v)
+		if out != "" && p != out {
+			return ""
+		}
+		out = p
+	}
+	return out
 }
 
 // PathOfIn: access path of a value of a callee, written in the caller's
@@ -365,6 +484,10 @@ func (st *provState) compute(v ssa.Value) string {
 		return st.call(&x.Call, x)
 	case *ssa.Extract:
 		switch t := x.Tuple.(type) {
+		case *ssa.Call:
+			if p := st.helperResult(&t.Call, x.Index); p != "" {
+				return p
+			}
 		case *ssa.TypeAssert:
 			if x.Index == 0 {
 				return st.path(t.X)
